@@ -143,6 +143,10 @@ SPECIAL_DOCS = [
     ["P\tp1\tA+\t*"],                                   # one-segment path over undefined segment
     ["H\txx:i:1", "H\txx:i:2", "H\txx:i:3"],             # repeated header tag
     ["U\tu1\tu2", "U\tu2\tu1"],                          # mutually nested sets
+    # groups that contain each other, over segments and edges that are then removed (the cascade must end)
+    ["S\ts1\t4\t*", "S\ts2\t4\t*", "U\tu1\ts1 u2", "U\tu2\ts2 u1"],
+    ["S\ts1\t4\t*", "S\ts2\t4\t*", "S\ts3\t4\t*", "U\tu1\ts1 u2", "U\tu2\ts2 u3", "U\tu3\ts3 u1", "U\tu4\tu1 s3"],
+    ["S\ts1\t4\t*", "S\ts2\t4\t*", "E\te1\ts1+\ts2+\t2\t4$\t0\t2\t*", "O\to1\ts1+ e1+ o2+", "O\to2\ts2+ o1-", "U\tu1\to1 e1"],
     ["S\tA\t10\t*", "U\tA\tx y"],                        # group named like a segment
     ["S\tA\t*", "S\tB\t*", "L\tA\t+\tA\t-\t*", "L\tA\t+\tB\t+\t*"],
     ["O\to1\to2+", "O\to2\to3-", "O\to3\to1+"],
@@ -298,6 +302,10 @@ class Budget(core.LineBudget):
         self.tripped = False
 
     def _cb(self, code, line):
+        if not code.co_filename.startswith(core.GFAPY_DIR):
+            # only the library's own lines are counted (and, once the budget is exhausted, interrupted: the
+            # harness must be able to report it)
+            return sys.monitoring.DISABLE
         self.n += 1
         if self.tripped or self.n > self.limit:
             self.tripped = True
